@@ -135,7 +135,7 @@ RECURSIVE RefApplyCls(_, _, _, _, _), RefApplyT(_, _, _, _, _), RefCompatible(_,
 \* entries of init_args that the class c accepts (name and value), re-checked from scratch
 RefCompatible(fam, dev, a, c) ==
   LET ok == {n \in DOMAIN a : n \in PNames(fam, c) /\ RefApplyT(fam, dev, PRec(fam, c, n).t, NoVal, AsInput(a[n])) # Rej}
-  IN [n \in ok |-> RefApplyT(fam, dev, PRec(fam, c, n).t, NoVal, AsInput(a[n]))]        \* ... and read as the new class reads them
+  IN [n \in ok |-> RefApplyT(fam, dev, PRec(fam, c, n).t, NoVal, AsInput(a[n]))]        \* ... and are read as the new class reads them
 RefApplyCls(fam, dev, tc, cur, v) ==
   LET base == IF IsSpec(cur) THEN cur ELSE IF ~Abstract(fam, tc) THEN S(tc, EF, EF) ELSE NoVal
       d == RefDelta(v)
@@ -219,7 +219,8 @@ Settle(fam, v) ==
     [] OTHER        -> v
 RefParse(fam, dev, tc, items) ==
   LET r0 == RefFold(fam, dev, tc, items, 1, NoVal)
-      r == IF dev.stale /\ r0 # Rej THEN Settle(fam, r0) ELSE r0
+      r1 == IF dev.stale /\ r0 # Rej THEN Settle(fam, r0) ELSE r0
+      r == IF r1 = Rej \/ ~IsSpec(r1) THEN Rej ELSE RefApplyCls(fam, dev, tc, NoVal, AsInput(r1))     \* the explicit form, read as a whole (values kept across a class change are read by their new class)
   IN IF r = Rej \/ ~IsSpec(r) THEN Parsed(FALSE, Rej)
      ELSE IF AcceptSpec(fam, dev, tc, Fill(fam, r)) THEN Parsed(TRUE, Fill(fam, r)) ELSE Parsed(FALSE, Rej)
 
@@ -293,9 +294,10 @@ AlgDiscard(fam, prev, c) ==
   ELSE prev
 \* parser.parse_object(init_args, cfg_base=prev_init_args), :1440: every key must be an argument of the class parser,
 \* every value is checked by its action with the previous value of that key; the result is merged over the base
-AlgParseObject(fam, c, ia, base) ==
-  LET newa == [n \in DOMAIN ia |-> IF n \in PNames(fam, c) THEN AlgAdaptT(fam, PRec(fam, c, n).t, ia[n], IF n \in DOMAIN base THEN base[n] ELSE NoVal) ELSE Rej]
-  IN IF \E n \in DOMAIN newa : newa[n] = Rej THEN Rej ELSE Overlay(base, newa)
+AlgParseObject(fam, c, ia, base0) ==
+  LET base == [n \in DOMAIN base0 |-> IF n \in PNames(fam, c) THEN AlgAdaptT(fam, PRec(fam, c, n).t, AsInput(base0[n]), NoVal) ELSE Rej]   \* parse_object:501-504 the base goes through _apply_actions first
+      newa == [n \in DOMAIN ia |-> IF n \in PNames(fam, c) THEN AlgAdaptT(fam, PRec(fam, c, n).t, ia[n], IF n \in DOMAIN base THEN base[n] ELSE NoVal) ELSE Rej]   \* :505
+  IN IF (\E n \in DOMAIN base : base[n] = Rej) \/ (\E n \in DOMAIN newa : newa[n] = Rej) THEN Rej ELSE Overlay(base, newa)                       \* :506
 \* adapt_class_type (not instantiating, not serialising), :1372-1452, followed by the leaf-wise Namespace.update
 \* of ActionTypeHint.__call__:551 / merge_config:1395 over the previous value (merge = TRUE).  The elements of a list / dict
 \* value are not namespaces of the config: the new element replaces the old one (merge = FALSE)
@@ -397,6 +399,8 @@ ExplicitItems(fam, tc, items) ==
 (* The Alg machine: one step per source, then sub-defaults, required       *)
 (* check, instantiation.                                                   *)
 (***************************************************************************)
+\* where the family of a case is found (the root modules override this so that the states stay small)
+FamOf(c) == c.fam
 VARIABLES cs,     \* the case
           pc,     \* "source" | "defaults" | "required" | "instantiate" | "done"
           i,      \* next source
@@ -409,23 +413,23 @@ InitCase(c) == cs = c /\ pc = "source" /\ i = 1 /\ cur = NoVal /\ ok = "run" /\ 
 \* ActionTypeHint.__call__:521-552 (argv) / ActionConfigFile.apply_config -> _apply_actions (config): check the value with
 \* the previous one, merge
 ASource == /\ pc = "source" /\ i <= Len(cs.items)
-           /\ LET r == AlgAdaptCls(cs.fam, cs.T, ItemValue(cs.items[i]), cur, TRUE) IN
+           /\ LET r == AlgAdaptCls(FamOf(cs), cs.T, ItemValue(cs.items[i]), cur, TRUE) IN
                 IF r = Rej THEN /\ ok' = "reject" /\ pc' = "done" /\ UNCHANGED <<cs, i, cur, log>>
                 ELSE /\ cur' = r /\ i' = i + 1 /\ UNCHANGED <<cs, pc, ok, log>>
 AEndSources == /\ pc = "source" /\ i > Len(cs.items)
                /\ pc' = "defaults" /\ UNCHANGED <<cs, i, cur, ok, log>>
 \* _parse_common:371-373 add_sub_defaults
 ADefaults == /\ pc = "defaults"
-             /\ LET r == AlgSubDefaults(cs.fam, cs.T, cur) IN
+             /\ LET r == AlgSubDefaults(FamOf(cs), cs.T, cur) IN
                   IF r = Rej THEN /\ ok' = "reject" /\ pc' = "done" /\ UNCHANGED <<cs, i, cur, log>>
                   ELSE /\ cur' = r /\ pc' = "required" /\ UNCHANGED <<cs, i, ok, log>>
 \* _parse_common:383-384 validate
 ARequired == /\ pc = "required"
-             /\ IF IsSpec(cur) /\ AlgRequiredOK(cs.fam, cur) THEN /\ ok' = "accept" /\ pc' = "instantiate" /\ UNCHANGED <<cs, i, cur, log>>
+             /\ IF IsSpec(cur) /\ AlgRequiredOK(FamOf(cs), cur) THEN /\ ok' = "accept" /\ pc' = "instantiate" /\ UNCHANGED <<cs, i, cur, log>>
                 ELSE /\ ok' = "reject" /\ pc' = "done" /\ UNCHANGED <<cs, i, cur, log>>
 \* ArgumentParser.instantiate_classes:1200-1256
 AInstantiate == /\ pc = "instantiate"
-                /\ log' = AlgInst(cs.fam, cur, << >>).log /\ pc' = "done" /\ UNCHANGED <<cs, i, cur, ok>>
+                /\ log' = AlgInst(FamOf(cs), cur, << >>).log /\ pc' = "done" /\ UNCHANGED <<cs, i, cur, ok>>
 Next == ASource \/ AEndSources \/ ADefaults \/ ARequired \/ AInstantiate
 
 Done == pc = "done"
@@ -434,7 +438,7 @@ AlgParsed == IF ok = "accept" THEN Parsed(TRUE, cur) ELSE Parsed(FALSE, Rej)
 (***************************************************************************)
 (* Invariants                                                              *)
 (***************************************************************************)
-RefOf(dev) == RefParse(cs.fam, dev, cs.T, cs.items)
+RefOf(dev) == RefParse(FamOf(cs), dev, cs.T, cs.items)
 \* does a source mention dict_kwargs (as a dotted segment or as a key of a dict, at any depth)?
 RECURSIVE MentionsDK(_)
 MentionsDK(v) == CASE v.k = "dict" -> "dict_kwargs" \in DOMAIN v.d \/ \E n \in DOMAIN v.d : MentionsDK(v.d[n])
@@ -445,10 +449,10 @@ InvolvesDictKwargs == \E j \in 1..Len(cs.items) : MentionsDK(cs.items[j].v) \/ (
 AlgRefinesRef == Done => AlgParsed = RefOf(CodeDev)
 \* ... and the deviations are invisible unless dict_kwargs are used
 DevOnlyDictKwargs == (Done /\ ~InvolvesDictKwargs) => RefOf(NoDev) = RefOf(CodeDev)
-MachineIsFold == Done => AlgParsed = AlgParse(cs.fam, cs.T, cs.items)
+MachineIsFold == Done => AlgParsed = AlgParse(FamOf(cs), cs.T, cs.items)
 \* what is accepted satisfies the predicate of the property (modulo nokw), and its log rebuilds the normal form
-AcceptedIsValid == (Done /\ ok = "accept") => AcceptSpec(cs.fam, CodeDev, cs.T, cur)
-LogRebuilds == (Done /\ ok = "accept") => LogOK(cs.fam, cur, log, Len(log), Built(cs.fam, cur.c))
+AcceptedIsValid == (Done /\ ok = "accept") => AcceptSpec(FamOf(cs), CodeDev, cs.T, cur)
+LogRebuilds == (Done /\ ok = "accept") => LogOK(FamOf(cs), cur, log, Len(log), Built(FamOf(cs), cur.c))
 \* Normal(short form) = Normal(explicit form)
-ShortEqualsExplicit == (Done /\ RefOf(CodeDev).ok /\ RefOf(NoDev) = RefOf(CodeDev)) => AlgParse(cs.fam, cs.T, ExplicitItems(cs.fam, cs.T, cs.items)) = AlgParsed
+ShortEqualsExplicit == (Done /\ RefOf(CodeDev).ok /\ RefOf(NoDev) = RefOf(CodeDev)) => AlgParse(FamOf(cs), cs.T, ExplicitItems(FamOf(cs), cs.T, cs.items)) = AlgParsed
 =============================================================================
